@@ -65,7 +65,8 @@ class StaticCondensation(Module):
     def _response(self, A):
         self.n = np.shape(A)[0]
         self.module_LinSolve.sig_in[0].state = A[self.f, ...][..., self.f]
-        self.module_LinSolve.sig_in[1].state = A[self.f, ...][..., self.m].todense()
+        Afm = A[self.f, ...][..., self.m]
+        self.module_LinSolve.sig_in[1].state = Afm.todense() if hasattr(Afm, 'todense') else Afm
         self.module_LinSolve.response()
         self.X = self.module_LinSolve.sig_out[0].state
         return A[self.m, ...][..., self.m] - A[self.m, ...][..., self.f] @ self.X
@@ -152,13 +153,13 @@ class SystemOfEquations(Module):
 
         # solve
         self.module_LinSolve.sig_in[0].state = Aff
-        self.module_LinSolve.sig_in[1].state = bf - self.Afp * xp
+        self.module_LinSolve.sig_in[1].state = bf - self.Afp @ xp
         self.module_LinSolve.response()
         xf = self.module_LinSolve.sig_out[0].state
 
         # set output
         self.x[self.f, ...] = xf
-        b[self.p, ...] = self.Afp.T * xf + self.App * xp
+        b[self.p, ...] = self.Afp.T @ xf + self.App @ xp
 
         return self.x, b
 
@@ -168,7 +169,7 @@ class SystemOfEquations(Module):
         if dgdx is not None:
             adjoint_load += dgdx[self.f, ...]
         if dgdb is not None:
-            adjoint_load += self.Afp * dgdb[self.p, ...]
+            adjoint_load += self.Afp @ dgdb[self.p, ...]
 
         lam = np.zeros_like(self.x)
         lamf = -1.0 * self.module_LinSolve.solver.solve(adjoint_load, trans='T')
@@ -187,14 +188,14 @@ class SystemOfEquations(Module):
         dgdbf = np.zeros_like(adjoint_load)
         dgdup = np.zeros_like(self.x[self.p, ...])
         dgdbf -= lam[self.f, ...]
-        dgdup += self.Afp.T * lam[self.f, ...]
+        dgdup += self.Afp.T @ lam[self.f, ...]
 
         if dgdx is not None:
             dgdup += dgdx[self.p, ...]
 
         if dgdb is not None:
             dgdbf += dgdb[self.f, ...]
-            dgdup += self.App * dgdb[self.p, ...]
+            dgdup += self.App @ dgdb[self.p, ...]
 
         return dgdA, dgdbf, dgdup
 
